@@ -4,6 +4,7 @@ import (
 	"go/constant"
 	"go/token"
 	"go/types"
+	"strings"
 
 	"golang.org/x/tools/go/ssa"
 
@@ -182,3 +183,123 @@ func linTerms(v ssa.Value) (map[ssa.Value]int64, int64) {
 	walk(v, 1, 0)
 	return terms, k
 }
+
+// foldCond evaluates a boolean SSA value under the assumption that every value accepted by isID equals id: comparisons
+// of the id with constants, negation, and the phi of a short-circuit && / || (an incoming edge counts only if the
+// branch it comes from can go that way under the same assumption). known=false when the value depends on anything else.
+func foldCond(v ssa.Value, isID func(ssa.Value) bool, id int64, depth int) (val, known bool) {
+	if depth > 10 || v == nil {
+		return false, false
+	}
+	switch x := v.(type) {
+	case *ssa.Const:
+		if x.Value != nil && x.Value.Kind() == constant.Bool {
+			return constant.BoolVal(x.Value), true
+		}
+	case *ssa.UnOp:
+		if x.Op == token.NOT {
+			if b, ok := foldCond(x.X, isID, id, depth+1); ok {
+				return !b, true
+			}
+		}
+	case *ssa.BinOp:
+		a, b, op := x.X, x.Y, x.Op
+		if _, isC := ssaConstInt(a); isC {
+			a, b = b, a
+			switch op {
+			case token.LSS:
+				op = token.GTR
+			case token.LEQ:
+				op = token.GEQ
+			case token.GTR:
+				op = token.LSS
+			case token.GEQ:
+				op = token.LEQ
+			}
+		}
+		c, isC := ssaConstInt(b)
+		if !isC || !isID(stripConv(a)) {
+			return false, false
+		}
+		switch op {
+		case token.EQL:
+			return id == c, true
+		case token.NEQ:
+			return id != c, true
+		case token.LSS:
+			return id < c, true
+		case token.LEQ:
+			return id <= c, true
+		case token.GTR:
+			return id > c, true
+		case token.GEQ:
+			return id >= c, true
+		}
+	case *ssa.Phi:
+		seenT, seenF := false, false
+		for i, e := range x.Edges {
+			// is the edge pred -> phi block feasible?
+			if !edgeFeasible(x.Block().Preds[i], x.Block(), isID, id, depth+1, 0) {
+				continue
+			}
+			ev, ok := foldCond(e, isID, id, depth+1)
+			if !ok {
+				return false, false
+			}
+			if ev {
+				seenT = true
+			} else {
+				seenF = true
+			}
+		}
+		if seenT != seenF {
+			return seenT, true
+		}
+	}
+	return false, false
+}
+
+// edgeFeasible: the branch at the end of pred can go to blk under the assumption, and pred itself can be entered
+// (looked at up to three blocks back, which covers the blocks of a short-circuit expression; beyond that: feasible).
+func edgeFeasible(pred, blk *ssa.BasicBlock, isID func(ssa.Value) bool, id int64, depth, back int) bool {
+	can := false
+	for si, s := range pred.Succs {
+		if s != blk {
+			continue
+		}
+		cond, truth, ok := core.IfEdge(pred, si)
+		if !ok {
+			can = true
+			continue
+		}
+		if cv, ck := foldCond(cond, isID, id, depth+1); !ck || cv == truth {
+			can = true
+		}
+	}
+	if !can {
+		return false
+	}
+	if back >= 3 || len(pred.Preds) == 0 {
+		return true
+	}
+	for _, pp := range pred.Preds {
+		if pp == pred || edgeFeasible(pp, pred, isID, id, depth+1, back+1) {
+			return true
+		}
+	}
+	return false
+}
+
+// foldedEdges: an edge filter that follows only the branches consistent with the id having the given value.
+func foldedEdges(isID func(ssa.Value) bool, id int64) func(b *ssa.BasicBlock, si int) bool {
+	return func(b *ssa.BasicBlock, si int) bool {
+		cond, truth, ok := core.IfEdge(b, si)
+		if !ok {
+			return true
+		}
+		v, known := foldCond(cond, isID, id, 0)
+		return !known || v == truth
+	}
+}
+
+func isSetIDValue(v ssa.Value) bool { return strings.Contains(fieldLoadName(v), "SetID") }
